@@ -8,22 +8,7 @@ KG = "storage_engine::KnowledgeGraph"
 VE = "schema::validator::ValidationEngine"
 
 
-def err_propagated(f, call):
-    """the Result returned by `call` reaches a `?` (Try::branch) whose Break arm can only leave through error returns,
-    or is returned directly"""
-    d = f.derive({call.dst["l"]}, through_calls=True)
-    rets, eb = f.success_returns()
-    for c in f.normal_calls():
-        if (c.static or "") == "std::ops::Try::branch" and op_local(c.args[0]) in d and f.dominates(call.bb, c.bb):
-            res = f.derive({c.dst["l"]}, through_calls=False)
-            for (bb, adt, pl, mm, other) in f.enum_switches("std::ops::ControlFlow"):
-                if pl["l"] in res and "Break" in mm:
-                    reach = f.reachable_from([mm["Break"]], stop=eb)
-                    if not any(r in reach for r in rets):
-                        return True, mm.get("Continue")
-    if 0 in d:
-        return True, None
-    return False, None
+err_propagated = common.err_propagated
 
 
 def run(F, ctx):
